@@ -203,7 +203,7 @@ def run(ctx):
     rs.stack.patch_time()
     check_order(ctx, 2000 if ctx.tier == "quick" else 50000)
     if ctx.tier == "quick":
-        histories(ctx, 40, 70)
+        histories(ctx, 100, 80)
     else:
         histories(ctx, 500, 150)
     ctx.exhaustive = False
